@@ -535,7 +535,11 @@ class ObjectPairs(Suite):
                dict(cls='AutoP', a1={'path': 'a.txt'}, a2={'path': 'b.txt'}),
                dict(cls='AutoP', a1={'path': 'a.txt', 'scale': 1}, a2={'path': 'a.txt', 'scale': 2}),
                dict(cls='AutoD', a1={'x': 1, 'rate': 1.0}, a2={'x': 1, 'rate': 1.5}),
-               dict(cls='AutoD', a1={'x': 1, 'opts': {'a': 1, 'b': [2]}}, a2={'x': 1, 'opts': {'a': 1, 'b': [3]}})]
+               dict(cls='AutoD', a1={'x': 1, 'opts': {'a': 1, 'b': [2]}}, a2={'x': 1, 'opts': {'a': 1, 'b': [3]}}),
+               # after an object of a class that extends the inherited ignore list in place was rendered in the process
+               dict(cls='AutoW', a1={'lr': 0.1, 'workers': 4}, a2={'lr': 0.1, 'workers': 8}, prime={'__auto__': 'AutoX', 'args': {'source': 's'}}),
+               dict(cls='AutoW', a1={'lr': 0.1, 'batch_size': 32}, a2={'lr': 0.1, 'batch_size': 64}, prime={'__auto__': 'AutoX', 'args': {'source': 's'}}),
+               dict(cls='AutoA', a1={'a': 1, 'b': 2}, a2={'a': 1, 'b': 3}, prime={'__auto__': 'AutoX', 'args': {'source': 's', 'workers': 2}})]
         # a class edited and reloaded within one process (notebook autoreload): the class object is new, the name is not
         out += [dict(redefined=True, first=['a'], second=['a', 'b'], a1={'a': 1, 'b': 1}, a2={'a': 1, 'b': 2}),
                 dict(redefined=True, first=['a', 'b'], second=['b', 'c', 'a'], a1={'a': 1, 'b': 1, 'c': [1]}, a2={'a': 1, 'b': 1, 'c': [2]}),
@@ -578,6 +582,8 @@ class ObjectPairs(Suite):
                 return dict(texts=texts, kept=kept)
             finally:
                 sys.modules.pop('tcv_redef', None)
+        if case.get('prime'):
+            materialize(case['prime']).repr()
         for args in (case['a1'], case['a2']):
             spec = {'__auto__': case['cls'], 'args': args}
             reg = ParameterRegistry([Parameter('p')])
